@@ -116,12 +116,32 @@ def path_scope(k):
     if k == 'tt':
         return [g for g in fm.enum_exact(fm.LTL_UN, fm.LTL_BIN, (fm.P, fm.Q), 2)
                 if g[0] in fm.TEMP and fm.temporal_count(g) == 2]
+    if k == 'pairs':
+        return temporal_pairs()
+    if k == 'nary':
+        return fm.ltl_nary()
     if k == 'rep':
         return fm.ltl_repeated()[::payload_rep_stride[0]]
     if k == 'k3':
         # every 97th path formula with exactly 3 operators over {p,q} (207 of 20 048)
         return fm.enum_strided(fm.LTL_UN, fm.LTL_BIN, (fm.P, fm.Q), 3, 97)
     return fm.ltl_paths(k)
+
+
+def temporal_pairs():
+    """x op y for two one-operator temporal formulas (incl. constants as operands: X true, false U p,
+    p R true, ...) and op in and/or/-->/U/R: two DIFFERENT temporal subformulas interacting."""
+    P, Q, T, F = fm.P, fm.Q, fm.TRUE, fm.FALSE
+    t1 = [('X', P), ('F', P), ('G', Q), ('U', P, Q), ('U', Q, P), ('R', P, Q), ('R', Q, P), ('X', T), ('X', F),
+          ('U', F, P), ('U', P, T), ('R', P, T), ('R', T, Q), ('G', ('not', P))]
+    out = []
+    for x in t1:
+        for y in t1:
+            if x == y:
+                continue
+            for o in ('and', 'or', 'imp', 'U', 'R'):
+                out.append((o, x, y))
+    return out
 
 
 def enum_shard(st, shard, nshards, payload):
@@ -189,20 +209,24 @@ def run(ctx):
                 'as false and as true.')
     if ctx.thorough:
         scopes = [(1, 2, 1), (2, 2, 1), (3, 1, 1), (4, 1, 4001), (3, 'tt', 5), (3, 2, 211), (4, 'tt', 20011),
-                  (2, 'k3', 1), (3, 'k3', 97), (4, 'k3', 200003), (1, 'rep', 1), (2, 'rep', 3), (3, 'rep', 401)]
+                  (2, 'k3', 1), (3, 'k3', 97), (4, 'k3', 200003), (1, 'rep', 1), (2, 'rep', 3), (3, 'rep', 401),
+                  (1, 'pairs', 1), (2, 'pairs', 4), (3, 'pairs', 1201), (1, 'nary', 1), (2, 'nary', 4), (3, 'nary', 1201)]
         ctx.scopes = ['S(1)+S(2) x LTL path k<=2 (4324 formulas)', 'S(3) x k<=1 (100 formulas)',
                       'every 4001st of S(4) x k<=1', 'every 5th of S(3) x tt (90 formulas with two nested temporal operators)',
                       'every 211th of S(3) x k<=2', 'every 20011th of S(4) x tt',
                       'S(2), every 97th of S(3), every 200003rd of S(4) x k3 (every 97th path formula with exactly 3 operators)',
-                      'S(1), every 3rd of S(2), every 401st of S(3) x rep (360 formulas with a temporal subformula repeated under both polarities)']
+                      'S(1), every 3rd of S(2), every 401st of S(3) x rep (360 formulas with a temporal subformula repeated under both polarities)',
+                      'the same structure samples (sparser) x pairs (910 formulas x op y joining two different one-operator temporal formulas, incl. constant operands) and x nary (868 formulas with 3- and 4-ary and/or of temporal operands)']
     else:
         scopes = [(1, 2, 1), (2, 1, 1), (2, 2, 12), (3, 1, 24), (4, 1, 60013), (3, 'tt', 211), (2, 'k3', 16),
-                  (3, 'k3', 1801), (1, 'rep', 1), (2, 'rep', 24), (3, 'rep', 5501)]
+                  (3, 'k3', 1801), (1, 'rep', 1), (2, 'rep', 24), (3, 'rep', 5501),
+                  (1, 'pairs', 2), (2, 'pairs', 72), (3, 'pairs', 11003), (1, 'nary', 2), (2, 'nary', 72), (3, 'nary', 11003)]
         ctx.scopes = ['S(1) x k<=2', 'S(2) x k<=1', 'every 12th of S(2) x k<=2',
                       'every 24th of S(3) x k<=1', 'every 60013th of S(4) x k<=1',
                       'every 211th of S(3) x tt (two nested temporal operators)',
                       'every 16th of S(2) and every 1801st of S(3) x k3 (every 97th path formula with exactly 3 operators)',
-                      'S(1), every 24th of S(2), every 5501st of S(3) x rep (360 formulas with a temporal subformula repeated under both polarities)']
+                      'S(1), every 24th of S(2), every 5501st of S(3) x rep (360 formulas with a temporal subformula repeated under both polarities)',
+                      'the same structure samples (sparser) x pairs (910 formulas x op y joining two different one-operator temporal formulas, incl. constant operands) and x nary (868 formulas with 3- and 4-ary and/or of temporal operands)']
     ctx.exhaustive = True
     ctx.assumptions = ['reference semantics vp/ref.py (R-STAR certified by R-PATH) is the trusted base',
                        'formulas are bounded to <= 3 temporal operators because the tableau under '
